@@ -90,6 +90,8 @@ func (Engine) Generate(cfg simkit.RunConfig) (any, bool) {
 		return genWorkload(c2, genOpts{maxTxns: 6, pessRate: 0.4, faults: false, topo: true, backend: backend, asyncRate: async, onePCRate: onepc}), true
 	case "crash", "crashfaults":
 		return genCrash(c2, backend), true
+	case "latch":
+		return genLatch(c2, backend), true
 	case "lockretry":
 		return genLockRetry(c2, backend), true
 	case "stalelock":
@@ -135,6 +137,7 @@ func (Engine) Execute(t *testing.T, cfg simkit.RunConfig, scenario any) *simkit.
 	var leftover []string
 	var gcRep *GCReport
 	var truth simkit.Truth
+	var stuck []int
 	s.Run(func() {
 		var err error
 		w, err = newWorld(s, sc)
@@ -163,7 +166,29 @@ func (Engine) Execute(t *testing.T, cfg simkit.RunConfig, scenario any) *simkit.
 				w.runReads(rand.New(rand.NewSource(sc.Reads.Seed+1)), sc.Clients, "early", sc.Reads.Early, sc.Reads)
 			}()
 		}
-		wg.Wait()
+		// a transaction that stays inside its ending call although nothing is in flight any more and nothing was sent for
+		// five simulated minutes is blocked for good (only possible without a request: the local latch scheduler)
+		allDone := make(chan struct{})
+		go func() { wg.Wait(); close(allDone) }()
+	waitActors:
+		for {
+			select {
+			case <-allDone:
+				break waitActors
+			case <-time.After(30 * time.Second):
+				if sc.Knobs.Latches == 0 || !w.Net.Quiet(5*time.Minute) {
+					continue
+				}
+				for _, h := range w.Hist {
+					if h.EndInv != 0 && h.EndRet == 0 && !h.Cut {
+						stuck = append(stuck, h.Prog.ID)
+					}
+				}
+				if len(stuck) > 0 {
+					break waitActors
+				}
+			}
+		}
 		rwg.Wait()
 		if sc.Reads != nil {
 			// the writers ended (or died): their leftover locks are met by these reads
@@ -244,6 +269,9 @@ func (Engine) Execute(t *testing.T, cfg simkit.RunConfig, scenario any) *simkit.
 			sig = "riter-unbounded-upper " + sig
 		}
 		vs = append(vs, simkit.Violation{Property: "C01", Class: "backend-panic", Sig: sig, Detail: p})
+	}
+	for _, id := range stuck {
+		vs = append(vs, simkit.Violation{Property: "C17", Class: "lock-never-returns", Sig: fmt.Sprintf("txn%d", id), Detail: fmt.Sprintf("txn %d is still inside Commit although no request is in flight and none was sent for five simulated minutes: it is blocked in the local latch scheduler, whose other users have all ended (a holder did not give its latches back, or a wake-up was lost); latch slots: %d; history: %s", id, sc.Knobs.Latches, strings.Join(histLines(w.Hist), " | "))})
 	}
 	for _, f := range simkit.TakeFatals() {
 		vs = append(vs, simkit.Violation{Property: cfg.Property, Class: "fatal-log", Sig: firstWords(f, 4), Detail: "the library logged at Fatal level (the process would have exited): " + f})
